@@ -360,7 +360,7 @@ def _eq_msg(X, a, b, what):
             X.fail(f"C50/dns-roundtrip/records/{tname}", f"{what}: {sec} differ: {diff[0]!r} -> {diff[1]!r}")
 
 
-def h_dns_roundtrip(X, max_records):
+def h_dns_roundtrip(X, thorough):
     from mitmproxy import contentviews, dns
     from mitmproxy.test import tflow
 
@@ -369,7 +369,7 @@ def h_dns_roundtrip(X, max_records):
     t = dns.types
     questions = [dns.Question("host.example", t.A, dns.classes.IN), dns.Question("", t.TXT, dns.classes.CH), dns.Question("xn--bcher-kva.example", 255, dns.classes.IN),
                  dns.Question("a.b.c.d.example", 65280, 254)]
-    mode = X.choose("vary", ["header", "sections"])
+    mode = X.choose("vary", ["header", "sections"] + (["two-records"] if thorough else []))
     if mode == "header":
         # every header field varies, one question, one A record
         bits = X.choose("header_bits", 32)
@@ -380,11 +380,12 @@ def h_dns_roundtrip(X, max_records):
             questions=[questions[0]], answers=[recs[0]], authorities=[], additionals=[])
         nrec = 1
     else:
-        qn = X.choose("n_questions", 3)
+        qn = X.choose("n_questions", 3 if mode == "sections" else 2)
+        max_records = 1 if mode == "sections" else 2
         msg = dns.DNSMessage(
             timestamp=946681200.0, id=42, query=False, op_code=0, authoritative_answer=False, truncation=False, recursion_desired=True, recursion_available=True,
             reserved=0, response_code=0, questions=[X.choose("question", questions) for _ in range(qn)], answers=[], authorities=[], additionals=[])
-        nrec = X.choose("n_records", max_records + 1)
+        nrec = X.choose("n_records", max_records + 1) if mode == "sections" else 2
         for i in range(nrec):
             sec = X.choose("section", ["answers", "authorities", "additionals"])
             getattr(msg, sec).append(X.choose("record", recs))
@@ -452,8 +453,8 @@ def obligations(tier):
              bounds=f"{len(CASES)} (view, message kind, content type, seed) cases covering all {len({c[0] for c in CASES})} registered views x explicit / auto selection x 0-2 spliced bytes "
                     f"(first from {QUICK_B1 if q else len(BYTES1)}, second from {QUICK_B2 if q else len(BYTES2)} class representatives) at {6 if q else 10} offsets" + ("" if q else " x insert / overwrite"),
              encoded=ENCODED[:5] + ENCODED[7:8], must_reach=view_reach, parallel_depth=2),
-        Symx("dns-view-roundtrip", lambda X: h_dns_roundtrip(X, 1 if q else 2),
-             bounds=f"DNS messages: (a) 5 header flag bits x id x opcode x reserved x rcode with one question and one record; (b) 0-2 questions (4 shapes) x 0-{1 if q else 2} records from {len(_records())} shapes "
+        Symx("dns-view-roundtrip", lambda X: h_dns_roundtrip(X, not q),
+             bounds=f"DNS messages: (a) 5 header flag bits x id x opcode x reserved x rcode with one question and one record; (b) 0-2 questions (4 shapes) x 0-1 records" + ("" if q else "; (c) 0-1 questions x every ordered pair of records") + f" from {len(_records())} shapes "
                     "(A, AAAA, CNAME, PTR, NS, TXT variants, MX, HTTPS, malformed A, SOA, unknown type) in any section x carrier (DNSMessage / UDP / TCP)",
              encoded=ENCODED[5:7] + ENCODED[8:], must_reach=["built", "round-trip", "with-records"], parallel_depth=3),
     ]
